@@ -31,8 +31,14 @@ def _run_section(args):
     t0 = time.time()
     try:
         fn(sec)
-    except Exception:  # noqa: BLE001
-        sec.part.errors.append(f"{sec.name}: section crashed\n{traceback.format_exc()}")
+    except KeyboardInterrupt:
+        raise
+    except BaseException as e:  # noqa: BLE001  (engine control exceptions are BaseExceptions; a pool worker must never die of one)
+        if type(e).__name__ == "EngineLimit":
+            sec.obligation("the section stays within the engine's reach", "undecided", backend="engine",
+                           detail=f"EngineLimit: {e}\n{traceback.format_exc()[-1500:]}")
+        else:
+            sec.part.errors.append(f"{sec.name}: section crashed\n{traceback.format_exc()}")
     sec.part.wall = time.time() - t0
     return sec.part
 
